@@ -307,7 +307,9 @@ class P:
                 stmts.append(("expr", ("for", x, coll, body)))
                 continue
             if self.at("while"):
-                raise ParseError("while loops are outside the translated subset")
+                self.eat("while"); cnd = self.expr(nostruct=True); body = self.block()
+                stmts.append(("expr", ("while", cnd, body)))
+                continue
             if (self.at("if") or self.at("match") or (self.at("unsafe") and self.at("{", 1))) and self.peek()[0] == "id":
                 # a block-like expression statement ends at its closing brace (`if .. {} *self = ..` is two statements)
                 e = self.primary(False)
@@ -325,7 +327,7 @@ class P:
                 self.eat(";"); stmts.append(("expr", e))
             elif self.at("}"):
                 tail = e
-            elif e[0] in ("match", "if", "block", "for"):
+            elif e[0] in ("match", "if", "block", "for", "while"):
                 stmts.append(("expr", e))
             else:
                 raise ParseError("expected ; or } after expression, got %r" % (self.peek(),))
@@ -590,6 +592,8 @@ class Emitter:
         self.depth = 0
         self.inputs = set()
         self.reads_as_inputs = False
+        self.vec_index = False        # `a[i]` indexes a Vec / VecDeque (EAt) rather than a fixed array of MaybeUninit slots (EIndex)
+        self.t_default = None         # what `T::default()` is for the instantiation of a generic impl that is being translated
         self.ext_fields = {}          # field of self holding an object of a generic type (an inner getter / settable): field -> payload kind
         self.default_read_kind = None # the payload kind of an un-annotated read of the device's own terminal (wrappers: TerminalData)
         self.kinds = {}               # local variable -> "State" / "Command": which Terminal impl a get / set on it means
@@ -853,7 +857,7 @@ class Emitter:
             if "." in e[1]: return self.lit_f(e[1])
             return "(ELit (VI %d))" % int(re.sub(r"_?(usize|u16|i64|u8|i8)$", "", e[1]).replace("_", ""))
         if k == "index":
-            return "(EIndex %s %s)" % (self.expr(e[1]), self.expr(e[2]))
+            return "(%s %s %s)" % ("EAt" if self.vec_index else "EIndex", self.expr(e[1]), self.expr(e[2]))
         if k == "arrayrep":
             x = e[1]
             if x[0] == "call" and x[1][0] == "path" and x[1][1][-2:] == ["MaybeUninit", "uninit"] and not x[2]:
@@ -944,6 +948,14 @@ class Emitter:
                     return "(ELit (VT %d))" % int(re.sub(r"_?i64", "", args[0][1]))
                 if path == ["DimensionlessInteger"] and len(args) == 1 and args[0][0] == "num":
                     return "(ELit (VD %d))" % int(re.sub(r"_?i64", "", args[0][1]))
+                if path in (["Vec", "new"], ["VecDeque", "new"]) and not args:
+                    return "(EArr [])"
+                if path == ["Vec", "with_capacity"] and len(args) == 1:
+                    return "(ESeq %s (EArr []))" % self.expr(args[0])
+                if path in (["VecDeque", "from"], ["Vec", "from"]) and len(args) == 1:
+                    return self.expr(args[0])
+                if path == ["T", "default"] and not args and self.t_default:
+                    return self.t_default
                 if path == ["State", "default"] and not args:
                     if "State" not in self.enums.get("__derive_default__", set()): raise ParseError("State::default(): State does not derive Default")
                     return "(ELit (VS (snew_raw fzero fzero fzero)))"
@@ -1015,6 +1027,16 @@ class Emitter:
                     self.inputs.add(x[2])
                     return "(EVar %s)" % qs("get:" + x[2])
                 return self.expr(x)
+            if name in ("push_back", "push") and len(args) == 1:
+                return "(EPush %s false %s)" % (self.lval(recv), self.expr(args[0]))
+            if name == "push_front" and len(args) == 1:
+                return "(EPush %s true %s)" % (self.lval(recv), self.expr(args[0]))
+            if name in ("pop_front", "pop_back") and not args:
+                return "(EPop %s %s)" % (self.lval(recv), "true" if name == "pop_front" else "false")
+            if name == "clear" and not args:
+                return "(EAssign %s (EArr []))" % self.lval(recv)
+            if name == "len" and not args:
+                return "(ELen %s)" % self.expr(recv)
             if name == "write" and len(args) == 1 and recv[0] == "index":
                 return "(EWriteSlot %s %s %s)" % (self.lval(recv[1]), self.expr(recv[2]), self.expr(args[0]))
             if name == "assume_init" and not args: return "(EAssumeInit %s)" % self.expr(recv)
@@ -1101,6 +1123,13 @@ class Emitter:
             return "(EMatch %s %s)" % (self.expr(e[1]), self.lst(arms))
         if k == "for" and e[2][0] == "range":
             return "(EForRange %s %s %s %s)" % (qs(e[1]), self.expr(e[2][1]), self.expr(e[2][2]), self.expr(e[3]))
+        if k == "while":
+            # `while cond { ...; X.pop_front(); }`: every iteration removes an element of X, so len(X) + 1 bounds the number of
+            # condition evaluations (the evaluator treats running out of fuel as ill-typed, never as a value)
+            pops = self.find_pops(e[2])
+            if len(pops) != 1: raise ParseError("while loop: cannot find the one collection it shrinks")
+            fuel = "(EUs 1 (ELen %s) (ELit (VI 1)))" % self.expr(pops[0])
+            return "(EWhile %s %s %s)" % (fuel, self.expr(e[1]), self.expr(e[2]))
         if k == "for" and self.terminal_array(e[2]):
             # `for i in &self.inputs` over the device's own terminals.  A loop that only reads them (`i.borrow().get()`) runs over
             # what the terminals read (an input array, one entry per terminal); a loop that writes (`i.borrow_mut().set / update`)
@@ -1142,6 +1171,30 @@ class Emitter:
             inner = "(ELet (PVar %s) %s %s)" % (qs(t), self.expr(a), inner)
         return inner
 
+    def find_pops(self, e):
+        out = []
+        if isinstance(e, tuple):
+            if e and e[0] == "mcall" and e[2] in ("pop_front", "pop_back") and not e[3]:
+                if e[1] not in out: out.append(e[1])
+            for y in e:
+                for r in self.find_pops(y):
+                    if r not in out: out.append(r)
+        elif isinstance(e, list):
+            for y in e:
+                for r in self.find_pops(y):
+                    if r not in out: out.append(r)
+        return out
+
+    def data_array(self, e):
+        """`&self.<field>` / a local that holds a Vec / VecDeque of data (not of getters)"""
+        x = e
+        while x[0] in ("unary", "paren"):
+            x = x[2] if x[0] == "unary" else x[1]
+        if x[0] == "field" and x[1] == ("path", ["self"]):
+            st = self.enums.get("__structs__", {}).get((self.self_key or "").split("<")[0], {})
+            return st.get(x[2]) in ("VecDeque", "Vec", "Datum")
+        return False
+
     def terminal_array(self, e):
         """`&self.<field>` where the field is an array of Terminals (reads_as_inputs devices only): the field name"""
         if not self.reads_as_inputs: return None
@@ -1170,6 +1223,8 @@ class Emitter:
         x = e
         while x[0] in ("unary", "paren"):
             x = x[2] if x[0] == "unary" else x[1]
+        if self.data_array(e):
+            return self.expr(x)           # a queue of data held by the stream itself
         if x[0] == "field" and x[1] == ("path", ["self"]):
             self.inputs.add(x[2])
             return "(EVar %s)" % qs("get:" + x[2])
